@@ -479,6 +479,42 @@ class CStrInout(Atom):
         return [rs(t.ljust(len(v)))]
 
 
+class CStrInoutLen(Atom):
+    """char *s +intent(inout) where the library changes the length: a text of two or more characters is cut to
+    its first character, a shorter one gets "+x" appended (the caller's variable is long enough)."""
+
+    py = False
+    lua = False
+    c_api = False  # exercised through Fortran only
+
+    def __init__(self):
+        Atom.__init__(self, "cstr_inout_len")
+
+    def decl(self, n):
+        return ["char *%s +intent(inout)" % n]
+
+    def cparams(self, n, lang):
+        return ["char *%s" % n]
+
+    def body(self, n, lang):
+        return ['vt_txt(" %s=");' % n, "vt_z(%s);" % n], ["if (strlen(%s) >= 2) %s[1] = 0; else strcat(%s, \"+x\");" % (n, n, n)]
+
+    def values(self):
+        # (text, declared length of the caller's variable); the grown text always fits
+        return [("a", 5), ("abcdef", 6), ("ab  ", 4), ("", 3), ("abc", 8), ("a", 3)]
+
+    def _in(self, v):
+        return v[0].ljust(v[1])[: v[1]].rstrip(" ")
+
+    def recv(self, n, v):
+        return " %s=%s" % (n, rs(self._in(v)))
+
+    def observe(self, v):
+        t = self._in(v)
+        res = t[0] if len(t) >= 2 else t + "+x"
+        return [rs(res[: v[1]].ljust(v[1]))]
+
+
 class StrIn(Atom):
     """const std::string &s / std::string s / const std::string *s"""
 
@@ -1338,7 +1374,7 @@ def core_args(level=1):
     for t in ("int", "double"):
         A += [Arr(T[t], "in"), Arr(T[t], "inout"), ArrOut(T[t])]
     A += [Arr(T["int"], "in", nt="long"), Arr(T["double"], "inout", nt="size_t")]
-    A += [CStrIn(), CStrOut(), CStrInout()]
+    A += [CStrIn(), CStrOut(), CStrInout(), CStrInoutLen()]
     A += [StrIn("cref"), StrIn("val"), StrIn("cptr"), StrOut("out"), StrOut("inout"), StrOut("inout", ptr=True)]
     for t in ("int", "double"):
         A += [Vec(T[t], "in"), Vec(T[t], "out"), Vec(T[t], "inout"), Vec(T[t], "alloc")]
